@@ -39,6 +39,12 @@ var combos = []combo{
 	{"witness+forgedmirror", []sigSpec{{kW2, sGood}, {kM, sGarbage}}},
 	{"mirror+foreign", good(kForM, kM, kLogA2)},
 	{"w2-only", good(kW2)},
+	// one identity's valid cosignature beside a line that only BEARS the other identity's name (another key, so an
+	// unknown key hash; or the right key hash with a broken signature): only the first identity may sign (seed C16-7)
+	{"witness+fakemirror", good(kLogA, kW1, kW2, kMfake)},
+	{"mirror+fakewitness", good(kLogA, kM, kWfake)},
+	{"fakemirror-first", good(kMfake, kW2)},
+	{"mirror+forgedwitness", []sigSpec{{kM, sGood}, {kW2, sGarbage}, {kW1, sGarbage}}},
 }
 
 type noteCache map[string]builtNote
